@@ -80,19 +80,19 @@ Proof.
 Qed.
 
 (* ---- the theorems about a_latest ---- *)
-Theorem latest_tag_first ign e v : a_tag_of s_latest e = Some v -> a_latest ign e = Some v.
+Theorem latest_tag_first ign e v : a_tag_of tag_latest e = Some v -> a_latest ign e = Some v.
 Proof. intro H. unfold a_latest. rewrite H. reflexivity. Qed.
 
 Theorem latest_member ign e v :
-  a_latest ign e = Some v -> a_tag_of s_latest e = Some v \/ In v (a_versions_of e).
+  a_latest ign e = Some v -> a_tag_of tag_latest e = Some v \/ In v (a_versions_of e).
 Proof.
-  unfold a_latest. destruct (a_tag_of s_latest e); [intros [= <-]; left; reflexivity|].
+  unfold a_latest. destruct (a_tag_of tag_latest e); [intros [= <-]; left; reflexivity|].
   destruct (max_by_parsed _) as [[w p]|] eqn:E; [|discriminate]. intros [= <-].
   apply max_by_in in E. apply candidates_in in E. right. tauto.
 Qed.
 
 Theorem latest_is_max ign e v :
-  a_tag_of s_latest e = None -> a_latest ign e = Some v ->
+  a_tag_of tag_latest e = None -> a_latest ign e = Some v ->
   exists pv, parse_version v = Some pv /\ admissible ign pv /\
     forall w pw, In w (a_versions_of e) -> parse_version w = Some pw -> admissible ign pw -> vcmp pw pv <> Gt.
 Proof.
@@ -104,7 +104,7 @@ Proof.
 Qed.
 
 Theorem latest_none_iff ign e :
-  a_tag_of s_latest e = None ->
+  a_tag_of tag_latest e = None ->
   (a_latest ign e = None <-> forall w pw, In w (a_versions_of e) -> parse_version w = Some pw -> ~ admissible ign pw).
 Proof.
   unfold a_latest. intros ->. split.
@@ -128,10 +128,10 @@ Theorem latest_perm ign e e' :
   same_spelling_class (a_latest ign e) (a_latest ign e').
 Proof.
   intros Ht Pv. unfold a_latest.
-  assert (Htag : a_tag_of s_latest e = a_tag_of s_latest e').
+  assert (Htag : a_tag_of tag_latest e = a_tag_of tag_latest e').
   { unfold a_tag_of. unfold a_tags_of in Ht. destruct e as [x|], e' as [y|]; cbn in *; try rewrite Ht; try reflexivity;
       try (rewrite <- Ht; reflexivity). }
-  rewrite <- Htag. destruct (a_tag_of s_latest e); [left; reflexivity|].
+  rewrite <- Htag. destruct (a_tag_of tag_latest e); [left; reflexivity|].
   pose proof (candidates_perm ign _ _ Pv) as Pc.
   destruct (max_by_parsed (candidates ign (a_versions_of e))) as [[w p]|] eqn:E.
   - destruct (max_by_parsed (candidates ign (a_versions_of e'))) as [[w' p']|] eqn:E'.
